@@ -17,12 +17,14 @@ AllQuirks == {
   "oneofResetDeclOrder", \* oneof reset statements in declaration order even with sort on
   "embedNonPrimNilParent",\* list / map / message children of a nil optional-embed parent: panic
   "embedPathReset",      \* path of an embedded field is the message NAME, not the message path
-  "mapBytesType"         \* map<string,bytes>: value Go type cut after the last ']'
+  "mapBytesType",        \* map<string,bytes>: value Go type cut after the last ']'
+  "embeddedOneofNotReset"\* CopyFrom resets only the oneof groups the message declares itself, not those of embedded messages
 }
 
 \* repaired by "fix:" commits in /repo (see /verif/known_findings.json, section fixed)
 FixedQuirks == {"zeroBeforeEmbedGuard", "emptyMsgNotAlloc", "makeBeforeNullGuard", "embedNeverReset",
-                "staleMapKeys", "staleOnNilSource", "placeholderAssigned", "mapBytesType", "oneofResetDeclOrder"}
+                "staleMapKeys", "staleOnNilSource", "placeholderAssigned", "mapBytesType", "oneofResetDeclOrder",
+                "embeddedOneofNotReset"}
 
 \* what the current tree does
 Quirks == AllQuirks \ FixedQuirks
